@@ -191,6 +191,52 @@ contract(F + '::BoundsEnforceLS._solve', ['C10'],
                     ("        u += du\n\n        with Recording", "        with Recording"), 'pre@callee')])
 
 
+# ArmijoGoldsteinLS._iter_initialize: the initial step alpha*du is added to an iterate within bounds and the enforcement is
+# called WITH THAT alpha (the callee's precondition "u - alpha*step is within bounds" is a pre@callee obligation here;
+# it fails if another alpha - e.g. a default - reaches _enforce_bounds)
+AG_ASSUMED = dict(APPLY_ASSUMED)
+AG_ASSUMED.update({
+    'self._line_search_objective': Assumed(returns=Real(), note='residual norm: any real'),
+    'self._solver_info.save_cache': Assumed(returns=OpaqueT('cache'), note='solver-info print cache (no numeric state)'),
+    'self._solver_info.restore_cache': Assumed(note='solver-info print cache (no numeric state)'),
+})
+
+
+def ag_spec():
+    sp = solver_spec('ArmijoGoldsteinLS', alpha=Real(), _phi0=Real(), _dir_derivative=Real(), _solver_info=OpaqueT('solver_info'),
+                     _analysis_error_raised=False)
+    sp.attrs['options'] = DictT({'bound_enforcement': OneOf('vector', 'scalar', 'wall'), 'print_bound_enforce': False,
+                                 'alpha': Real(), 'retry_on_analysis_error': OneOf(True, False)})
+    return sp
+
+
+def native_ag(vals, np, om):
+    from pyvc.native_helpers import A, Fl, make_ls_solver
+    s = vals['self']
+    sysv = s['_system']['__callable__']
+    solver = make_ls_solver('ArmijoGoldsteinLS', A(sysv['_outputs']['_data']), A(sysv['_doutputs']['_data']),
+                            bool(sysv['_has_bounds']), A(s['_lower_bounds']), A(s['_upper_bounds']),
+                            s['options']['bound_enforcement'], alpha=Fl(s['options']['alpha']))
+    return dict(self=solver), dict(n=len(A(sysv['_outputs']['_data'])))
+
+
+AL = "self.options['alpha']"
+contract(F + '::ArmijoGoldsteinLS._iter_initialize', ['C10'],
+         dict(self=ag_spec()),
+         requires=SETUP_INV + within(U) + ['%s > 0' % AL],
+         ensures=within(U) + [
+             # no entry moves opposite to its Newton step or beyond the step alpha*du that was asked for
+             'all(le(0, (%s[i] - old(%s[i])) * old(self._system()._doutputs._data[i])) for i in range(n))' % (U, U),
+             'all(le(abs(%s[i] - old(%s[i])), abs(%s * old(self._system()._doutputs._data[i]))) for i in range(n))' % (U, U, AL),
+             'implies(not %s, all(%s[i] == old(%s[i]) + %s * old(self._system()._doutputs._data[i]) for i in range(n)))' % (HAS, U, U, AL),
+             'self.alpha == %s' % AL],
+         modifies=['self._system()._outputs._data', 'self._system()._doutputs._data', 'self._system()._residuals._data',
+                   'self.alpha', 'self._phi0', 'self._dir_derivative', 'self._analysis_error_raised'],
+         assumed=AG_ASSUMED, inline=VEC_INLINE, native=native_ag, may_raise=['AnalysisError'],
+         canaries=[('enforcement called with the default step length instead of alpha',
+                    ('self._enforce_bounds(step=du, alpha=alpha)', 'self._enforce_bounds(step=du, alpha=1.0)'), 'pre@callee')])
+
+
 # ---------------------------------------------------------------------------------------------
 # LinesearchSolver._setup_solvers: the bounds the kernels enforce are the PHYSICAL bounds expressed in the solver's
 # scaled space, whatever ref / ref0.  One iteration of the per-variable loop, extracted mechanically on every run
